@@ -14,7 +14,7 @@
 (* operation transition is exported as one JSON case by the                *)
 (* ACTION_CONSTRAINT Emit and replayed against the real library.           *)
 (***************************************************************************)
-EXTENDS AkBroadcast, Buffers, Json
+EXTENDS AkBroadcast, Buffers, AkNumba, Json
 
 CONSTANTS
   LeafSet,      \* set of leaf layouts to start from
@@ -224,6 +224,18 @@ SetFieldOp ==
         \/ \E p \in 0..3 : emit([where |-> p], [k \in 1..Len(recs) |-> ins(recs[k], what[k], p)])
   /\ cur' = Sink /\ aux' = NoLayout /\ phase' = "done"
 
+RECURSIVE KindsOfT(_)
+KindsOfT(U) == IF U.k \in {"var", "reg", "opt"} THEN <<U.k>> \o KindsOfT(U.x) ELSE <<U.k>>
+\* C20: access programs compiled by Numba see what the interpreter sees (AkNumba!NbExpect)
+NumbaOp ==
+  /\ OpReady("numba")
+  /\ \E prog \in NbProgs(T) : \E i \in {-3, -1, 0, 1, 2} : \E j \in {-1, 0, 1, 2} :
+       /\ (prog \in {"len", "iter_count", "sum_leaves", "asarray", "field_x"} => (i = 0 /\ j = 0))
+       /\ (prog \in {"at", "at_len", "at_field_x", "field_x_at"} => j = 0)
+       \* the second index is applied to a list only if the first level holds no missing lists
+       /\ (prog \in {"at_at", "at_len", "at_range"} => T.k \in {"var", "reg"})
+       /\ Case("numba", [prog |-> prog, i |-> i, j |-> j, kinds |-> KindsOfT(T)], NbExpect(prog, V, T, i, j))
+
 \* C09: is_none / bytemask of every option encoding: 1 exactly at the missing positions
 IsNoneOp ==
   /\ OpReady("isnone") /\ (IsOptionL(cur) \/ cur.c = "Indexed")
@@ -274,7 +286,7 @@ UfuncOp ==
              \/ emit("neg", "cur", <<lay(cur)>>)
   /\ cur' = Sink /\ aux' = NoLayout /\ phase' = "done"
 
-Operate == IsNoneOp \/ TypeFormOp \/ BuffersOp \/ UfuncOp \/ SetFieldOp \/ SortOp \/ ConcatOp \/ SameValueOp \/ ReduceOp \/ Validity \/ ToListOp \/ SliceOp \/ NumOp \/ LocalIndexOp \/ FlattenOp \/ PadOp \/ CombOp
+Operate == NumbaOp \/ IsNoneOp \/ TypeFormOp \/ BuffersOp \/ UfuncOp \/ SetFieldOp \/ SortOp \/ ConcatOp \/ SameValueOp \/ ReduceOp \/ Validity \/ ToListOp \/ SliceOp \/ NumOp \/ LocalIndexOp \/ FlattenOp \/ PadOp \/ CombOp
 
 Next == Build \/ Operate
 Spec == Init /\ [][Next]_vars
